@@ -428,9 +428,17 @@ class Filtration(PoupoolActor):
         if tank.is_halt().get():
             tank.fill.defer()
 
+    def __heating_ask(self, future, default):
+        # The heating actor queries the filtration synchronously as well. Never wait for ever for
+        # its answer otherwise both actors can end up waiting for each other (deadlock).
+        try:
+            return future.get(timeout=1)
+        except pykka.Timeout:
+            return default
+
     def heating_start(self):
         heating = self.get_actor("Heating")
-        if heating.is_halt().get():
+        if self.__heating_ask(heating.is_halt(), True):
             heating.wait.defer()
 
     def arduino_start(self):
@@ -646,7 +654,7 @@ class Filtration(PoupoolActor):
 
     def on_exit_heating_running(self):
         actor = self.get_actor("Heating")
-        if actor.is_heating().get():
+        if self.__heating_ask(actor.is_heating(), True):
             actor.wait.defer()
         self.__stir_mode.clear(datetime.now())
 
@@ -754,7 +762,9 @@ class Filtration(PoupoolActor):
     def do_repeat_comfort(self):
         self.__eco_mode.update(datetime.now(), 0.5)
         actor = self.get_actor("Heating")
-        if not actor.is_forcing().get() and not actor.is_recovering().get():
+        # Without answer we do nothing and will try again at the next poll
+        busy = self.__heating_ask(actor.is_forcing(), True) or self.__heating_ask(actor.is_recovering(), True)
+        if not busy:
             actor.force.defer()
         self.do_delay(self.STATE_REFRESH_DELAY, self.do_repeat_comfort.__name__)
 
